@@ -26,7 +26,9 @@ func ndShort(name string, max int) string {
 func H07Own() {
 	relN := ndShort("relname", 2)
 	relNS := ndShort("relns", 2)
-	obj := &symObj{TypeMeta: metav1.TypeMeta{Kind: "ConfigMap", APIVersion: "v1"}, ObjectMeta: metav1.ObjectMeta{Name: "a", Namespace: "default"}}
+	// namespaced or cluster-scoped (no namespace): the three requirements are the same
+	objNS := []string{"default", ""}[ndChoice("objNamespace", 2)]
+	obj := &symObj{TypeMeta: metav1.TypeMeta{Kind: "ConfigMap", APIVersion: "v1"}, ObjectMeta: metav1.ObjectMeta{Name: "a", Namespace: objNS}}
 	hasL, hasN, hasS := ndBool("hasManagedBy"), ndBool("hasNameAnno"), ndBool("hasNsAnno")
 	var lv, nv, sv string
 	obj.Labels = map[string]string{"keep-label": "x"}
@@ -47,7 +49,7 @@ func H07Own() {
 	owned := hasL && lv == "Helm" && hasN && nv == relN && hasS && sv == relNS
 	vAssert("own/accepted-iff-all-three-match", (err == nil) == owned)
 
-	info := &resource.Info{Name: "a", Namespace: "default", Object: obj,
+	info := &resource.Info{Name: "a", Namespace: objNS, Object: obj,
 		Mapping: &meta.RESTMapping{GroupVersionKind: schema.GroupVersionKind{Version: "v1", Kind: "ConfigMap"}}}
 	force := ndBool("force")
 	verr := setMetadataVisitor(relN, relNS, force)(info, nil)
